@@ -492,6 +492,22 @@ Fixpoint apply_changes (m : mem) (chs : list (N * bytes)) (a : N) : N :=
 Definition expect (O : oracle) (c : cfg) (m : mem) (vis : list sym) : mem :=
   apply_changes m (changes O c m vis).
 
+(* the layout hypothesis of the exactness theorem, as a decision procedure (used by the tie to count
+   how many generated cases lie inside the theorem's domain) *)
+Definition has_endbr (m : mem) (s : sym) : bool := bytes_eqb (rd m (s_addr s) 4) endbr64.
+Definition in_sym (s : sym) (a : N) : bool := in_span (s_addr s) (s_size s) a.
+Definition ranges_overlap (s t : sym) : bool :=
+  (s_addr s <? s_addr t + s_size t) && (s_addr t <? s_addr s + s_size s).
+Fixpoint ranges_disjointb (vis : list sym) : bool :=
+  match vis with
+  | [] => true
+  | s :: r => forallb (fun t => negb (ranges_overlap s t)) r && ranges_disjointb r
+  end.
+Definition layout_okb (O : oracle) (c : cfg) (m : mem) (vis : list sym) : bool :=
+  ranges_disjointb vis
+  && forallb (fun s => (negb (has_endbr m s) || (9 <=? s_size s))
+                       && (negb (spec_decision O c s =? -1)%Z || (6 <=? s_size s))) vis.
+
 (* executable property checker for an observed update: before/after byte windows at [base, base+len) *)
 Definition mem_of (base : N) (l : bytes) : mem :=
   fun a => if base <=? a then nth (N.to_nat (a - base)) l 0 else 0.
@@ -637,6 +653,11 @@ Definition u_agrees (fixed : bool) (u : ucase) : bool :=
       && u_pages_agree u pm1 d1
   end.
 
+(* is the case inside the domain of C14_update_exact_layout ? *)
+Definition u_layout (u : ucase) : bool :=
+  let c := u_cfg u (i_tramp u) in
+  layout_okb (u_oracle u) c (mem_of (u_wbase u) (u_before u)) (visited c (u_syms u) (u_targets u)).
+
 (* the property on the implementation's outputs *)
 (* a module whose trampoline cannot be set up (the page behind the text is needed and occupied) cannot be
    patched: it must be left byte-for-byte untouched, its page permissions unchanged, the process running *)
@@ -665,21 +686,47 @@ Definition u_ok (u : ucase) : bool :=
   | Some _ => u_ok_patchable u
   end.
 
+(* ------------------------------------------------------------------ -Z SIZE on the command line *)
+(* uftrace.c (case 'Z'): strtol(arg, NULL, 0) -> opts->size_filter (int);  cmds/record.c: if non-zero,
+   snprintf("%d") -> UFTRACE_MIN_SIZE;  libmcount/dynamic.c: min_size (unsigned) = strtoul(env).
+   [v] is the number the user wrote.  [fixed = false]: the code as found (long assigned to int);
+   [fixed = true]: after "fix: size filter: do not wrap around" (clamped to INT_MAX). *)
+Local Open Scope Z_scope.
+Definition LONG_MAX : Z := 9223372036854775807.
+Definition INT_MAX : Z := 2147483647.
+Definition strtol_val (v : Z) : Z := Z.max (- LONG_MAX - 1) (Z.min v LONG_MAX).
+Definition to_int32 (v : Z) : Z :=
+  let w := v mod 4294967296 in if w <? 2147483648 then w else w - 4294967296.
+Definition cli_size_filter (fixed : bool) (v : Z) : Z :=
+  let l := strtol_val v in
+  if fixed then (if l <=? 0 then 0 else if INT_MAX <? l then INT_MAX else l)
+  else (let i := to_int32 l in if i <=? 0 then 0 else i).
+Definition env_min_size (sf : Z) : option Z := if sf =? 0 then None else Some sf.
+Definition libmcount_min_size (e : option Z) : N :=
+  match e with None => 0%N | Some t => Z.to_N (t mod 4294967296) end.
+Definition cli_min_size (fixed : bool) (v : Z) : N :=
+  libmcount_min_size (env_min_size (cli_size_filter fixed v)).
+(* what the user asked for: functions smaller than v are not to be patched (v <= 0: no filter) *)
+Definition requested_min (v : Z) : N := if v <=? 0 then 0%N else Z.to_N v.
+Local Close Scope Z_scope.
+
 (* ------------------------------------------------------------------ end-to-end cases *)
 Record ecase := {
   e_ptype : ptype; e_funcs : bytes; e_defmod : bytes;
   e_regok : list (bytes * bool); e_tbl : list (bytes * bytes * bool);
-  e_ty : N; e_min : N; e_lib : bytes;
+  e_ty : N; e_zarg : Z; e_lib : bytes;
   e_text_addr : Z; e_text_size : Z; e_next_mapped : bool;
   e_wbase : N; e_before : bytes; e_syms : list sym; e_targets : list N;
   (* observed on the real uftrace record run *)
   o_died : bool; o_after : bytes; o_traced : list bytes; o_same_output : bool; o_rc_same : bool;
-  o_wx : N; o_tramp_perm : perm
+  o_wx : N; o_tramp_perm : perm; o_env : option Z       (* UFTRACE_MIN_SIZE as the tracee saw it *)
 }.
 Definition e_oracle (e : ecase) : oracle := mk_oracle (e_regok e) (e_tbl e).
-Definition e_cfg (e : ecase) (tramp : Z) : cfg :=
+Definition e_cfg (e : ecase) (tramp : Z) (mn : N) : cfg :=
   {| c_pats := parse_pattern_list (e_oracle e) (e_funcs e) (e_defmod e) (e_ptype e);
-     c_lib := e_lib e; c_so := None; c_ty := dyntype_of (e_ty e); c_tramp := tramp; c_min := e_min e |}.
+     c_lib := e_lib e; c_so := None; c_ty := dyntype_of (e_ty e); c_tramp := tramp; c_min := mn |}.
+Definition optZ_eqb (a b : option Z) : bool :=
+  match a, b with None, None => true | Some x, Some y => (x =? y)%Z | _, _ => false end.
 Definition e_pm (e : ecase) : pmap :=
   fun pg => if in_range (e_text_addr e) (e_text_size e) pg then P_RX
             else if e_next_mapped e && (pg =? page_of (align_up (e_text_addr e + e_text_size e)))%Z then P_R
@@ -693,7 +740,7 @@ Definition e_model (fixed : bool) (e : ecase) : option (bytes * list bytes) :=
   | SetupFatal => None
   | SetupFail => Some (e_before e, [])
   | SetupOk _ d1 =>
-      let c := e_cfg e (d_tramp d1) in
+      let c := e_cfg e (d_tramp d1) (cli_min_size true (e_zarg e)) in
       let m0 := mem_of (e_wbase e) (e_before e) in
       let m := fst (patch_func_matched (e_oracle e) c (e_syms e) (e_targets e) (m0, stats0)) in
       Some (window m (e_wbase e) (length (e_before e)),
@@ -705,6 +752,7 @@ Definition e_agrees (fixed : bool) (e : ecase) : bool :=
   match e_model fixed e with
   | None => o_died e
   | Some (w, names) => negb (o_died e) && bytes_eqb w (o_after e) && names_eq names (o_traced e)
+                       && optZ_eqb (env_min_size (cli_size_filter true (e_zarg e))) (o_env e)
   end.
 
 Definition tramp_of (text_addr text_size : Z) : Z :=
@@ -715,7 +763,9 @@ Definition tramp_of (text_addr text_size : Z) : Z :=
    is writable and executable, the trampoline page is r-x, the code bytes changed exactly as the
    specification says, and exactly the selected functions show up in the trace *)
 Definition e_ok_patchable (e : ecase) : bool :=
-  let c := e_cfg e (tramp_of (e_text_addr e) (e_text_size e)) in
+  (* the size filter of the specification is the number the user wrote, not what the option parser
+     made of it *)
+  let c := e_cfg e (tramp_of (e_text_addr e) (e_text_size e)) (requested_min (e_zarg e)) in
   let m0 := mem_of (e_wbase e) (e_before e) in
   let vis := visited c (e_syms e) (e_targets e) in
   negb (o_died e) && o_same_output e && o_rc_same e && (o_wx e =? 0) && perm_eqb (o_tramp_perm e) P_RX
